@@ -50,6 +50,11 @@ func main() {
 			os.Exit(2)
 		}
 		os.Exit(core.RunProperty(d, *repo, *root, *tier, seed))
+	case "neutral-sites":
+		fs := flag.NewFlagSet("neutral-sites", flag.ExitOnError)
+		repo := fs.String("repo", "/repo", "repository copy to list rewrites for")
+		_ = fs.Parse(os.Args[2:])
+		neutralSites(*repo)
 	case "multi":
 		// development aid: several properties over one load of the repository; prints "<ID> rc=<exit code>" per property
 		fs := flag.NewFlagSet("multi", flag.ExitOnError)
